@@ -133,6 +133,12 @@ class SourceFile:
         if new_code is None:
             new_code = self.new_code()
 
+        # the source is read with universal newlines,
+        # keep the line endings of files which use "\r\n"
+        original = self.filename.read_bytes()
+        if b"\r\n" in original and b"\n" not in original.replace(b"\r\n", b""):
+            new_code = new_code.replace("\r\n", "\n").replace("\n", "\r\n")
+
         with open(self.filename, "bw") as code:
             code.write(new_code.encode())
 
